@@ -471,6 +471,37 @@ Section Lifecycle.
     fold_left (fun s o => fst (lstep s o)) ops st.
 End Lifecycle.
 
+(** * channel.rs, phase 2: which commitment a signature is for.
+    sign_counterparty_commitment_tx_phase2 and sign_holder_commitment_tx_phase2_redundant build
+    the transaction they sign from the request's own values and HTLC lists; the CommitmentInfo2
+    handed to the validator is made of the same values and lists (CommitmentInfo2::new only
+    sorts them — HTLCs that agree in amount, hash and expiry stay separate entries, they are
+    separate outputs).  [Some j]: a signature was released, and it is for content [j]. *)
+Definition signed_counterparty est prof warn pol (oc : bool) e s cs n (req : cinfo) : option cinfo :=
+  match sign_counterparty est prof warn pol oc e s cs n req with Ok => Some req | _ => None end.
+Definition signed_holder_redundant est prof warn pol (oc : bool) e s cs n (req : cinfo) : option cinfo :=
+  match validate_entry (if oc then OnchainHolder else SimpleHolder) est prof warn pol e s cs n req with
+  | Ok => Some req
+  | _ => None
+  end.
+
+(** the variant in which the validator is shown the lists with repeated entries removed
+    (Vec::dedup on the sorted lists) while the transaction is still built from the request *)
+Fixpoint dedup_adj (l : list htlc) : list htlc :=
+  match l with
+  | [] => []
+  | a :: t =>
+      match t with
+      | b :: _ => if (fst a =? fst b) && (snd a =? snd b) then dedup_adj t else a :: dedup_adj t
+      | [] => [a]
+      end
+  end.
+Definition dedup_info (i : cinfo) : cinfo :=
+  mkInfo (cp_broadcaster i) (to_countersigner i) (to_broadcaster i)
+         (dedup_adj (offered i)) (dedup_adj (received i)) (feerate i).
+Definition signed_counterparty_dedup est prof warn pol (oc : bool) e s cs n (req : cinfo) : option cinfo :=
+  match sign_counterparty est prof warn pol oc e s cs n (dedup_info req) with Ok => Some req | _ => None end.
+
 (** * The bounds, stated mathematically (no machine arithmetic) *)
 
 Definition msum (hs : list htlc) : N := sum_N (map fst hs).
